@@ -363,20 +363,25 @@ def model(run, cfg, scratch, emit_name):
 
 def check(run: Run):
     tier = run.tier
-    cfg = "MC_DataStore_quick.cfg" if tier == "quick" else "MC_DataStore_thorough.cfg"
-    ids = ["a", "ba"] if tier == "quick" else ["a", "ba", "ab"]
+    # two instantiations of the constants: (1) identifiers related as affixes of one another, two non-empty payloads;
+    # (2) identifiers that begin with the names of the store's own tables / sub-directories (results_, logs_) and an
+    # EMPTY payload (a legal record whose file has zero bytes)
+    cfgs = ["MC_DataStore_quick.cfg", "MC_DataStore_quick_names.cfg"] if tier == "quick" else ["MC_DataStore_thorough.cfg", "MC_DataStore_thorough_names.cfg"]
     logids = ["l1"]
     with Scratch("C13") as scratch:
-        recs, res = model(run, cfg, scratch, "emit.ndjson")
-        init = {"comp": {i: NONE for i in ids}, "nc": {i: NONE for i in ids}, "logs": {l: False for l in logids}, "mode": "w", "fresh": True}
-        g_dir = Graph(recs)
-        g_sql = Graph(r for r in recs if not (r["act"] in ("Write", "WriteNC", "DropNC") and r["args"][-1]))
         stats = {}
-        budget = None if tier == "thorough" else int(os.environ.get("VERIF_C13_BUDGET", "9000"))
-        for name, g, ad in (("dir", g_dir, DirAdapter(ids, logids, scratch)), ("sqlite", g_sql, SqliteAdapter(ids, logids, scratch))):
-            st = explore(g, init, ad, run, seed=run.seed, budget=budget)
-            stats[name] = st
-            run.cov["traces_validated_against_impl"] += st["impl_transitions_checked"]
+        total = None if tier == "thorough" else int(os.environ.get("VERIF_C13_BUDGET", "9000"))
+        for ci, cfg in enumerate(cfgs):
+            recs, res = model(run, cfg, scratch, f"emit{ci}.ndjson")
+            ids = sorted(recs[0]["from"]["comp"])
+            init = {"comp": {i: NONE for i in ids}, "nc": {i: NONE for i in ids}, "logs": {l: False for l in logids}, "mode": "w", "fresh": True}
+            g_dir = Graph(recs)
+            g_sql = Graph(r for r in recs if not (r["act"] in ("Write", "WriteNC", "DropNC") and r["args"][-1]))
+            budget = None if total is None else total // len(cfgs)
+            for name, g, ad in (("dir", g_dir, DirAdapter(ids, logids, scratch)), ("sqlite", g_sql, SqliteAdapter(ids, logids, scratch))):
+                st = explore(g, init, ad, run, seed=run.seed, budget=budget)
+                stats[f"{name}:{'+'.join(ids)}"] = st
+                run.cov["traces_validated_against_impl"] += st["impl_transitions_checked"]
         run.note("replay", stats)
         # code -> spec
         import trace_C13
@@ -393,7 +398,7 @@ def check(run: Run):
     run.cov["evaluations"] = run.cov["traces_validated_against_impl"]
     run.cov["distinct_nontrivial"] = run.cov["traces_validated_against_impl"]
     run.assumptions += [
-        "identifiers do not contain the store suffix as a substring and contain no '.' other than the format suffix",
+        "identifiers do not contain the store suffix as a substring and contain no '.' other than the format suffix; they may begin with the store's table names",
         "logs are checked for presence and last content only (sqlite keeps one log row per session by design)",
     ]
 
